@@ -6,6 +6,10 @@ ROOT = os.path.dirname(os.path.dirname(os.path.abspath(__file__)))
 
 # id -> (level category, level text, level note, technique, design ref)
 CHECKS = {
+ "C01": ("exploration",
+   "Race-detector build. An independent content table (own sha256) judges: every push path (PushBlob, chunked one/many writes, mount, manifest by tag / by digest, raw single-POST, raw manifest PUT by digest) on 10 registry stacks (mem, http in-process and loopback, debug either side, select, sub, unify, two hops, http over unify) with generated contents (lengths 0..8, 8 KiB+-1, 64 KiB+-1, random; NUL/UTF-8 fragments), followed by complete reads, resolves and range reads (all (o0,o1) in [-1..len+2]^2 for len<=8, boundary+random otherwise); bad pushes (wrong digest, size +-1, size 0, truncated/extended content, wrong commit digest, raw wrong-digest POST/PUT) must fail and leave nothing; a corrupting peer applies 10 corruptions to GET responses (a clean EOF must match the descriptor); concurrent rounds of 8-16 goroutines push/delete/read a shared digest set.",
+   "Trusted: crypto/sha256 and the harness's content table. Acceptance of valid pushes is C03/C04's business (counted). Over HTTP an empty range may fail and prefix-consistent extended content is excluded; range readers are unverified by design.",
+   "runtime monitor: independent digest/content oracle + fault-injecting peer + race detector", "3/C01"),
  "C03": ("exploration",
    "1.2e3 / 2e4 generated histories of 30 Interface calls (pushes, composite chunked uploads with resume, mounts, manifests incl. 127/128/128+1 KiB ones read back by tag, deletes, reads, ranges, listings with start points; repositories and tags named after routing words) run on twin registries: ocimem directly and ociclient->ociserver(->second hop)->recording ocimem, cycling through all 16 server option sets x {1,2} hops x 4 ocidebug placements, in-process transport with a loopback share. Per call: outcome differential (success, code or HEAD status class, descriptor, bytes, listings), every recorded backend call explained by the client call (method within the translation, repository, reference, bytes, media type, range, start point/continuation), failing calls report one of the codes B's own backend returned.",
    "Trusted: the twin ocimem as reference; rec as the observation point. Content-free repositories may be unknown or empty on either side; blob media types and MountBlob's size are not carried by the wire; empty ranges and size-lying/invalid-digest pushes are outside the wire's domain.",
